@@ -11,9 +11,9 @@ pub const INDEX_HEADER_LEN: usize = 83;
 pub const INDEX_WRITTEN_BYTE: usize = 72;
 
 /// CRC32C (Castagnoli), reflected, init/xorout 0xFFFFFFFF - bitwise table built at first use
-pub fn crc32c(data: &[u8]) -> u32 {
+fn crc_table() -> &'static [u32; 256] {
     static TABLE: std::sync::OnceLock<[u32; 256]> = std::sync::OnceLock::new();
-    let t = TABLE.get_or_init(|| {
+    TABLE.get_or_init(|| {
         let mut t = [0u32; 256];
         for i in 0..256u32 {
             let mut c = i;
@@ -23,12 +23,42 @@ pub fn crc32c(data: &[u8]) -> u32 {
             t[i as usize] = c;
         }
         t
-    });
+    })
+}
+
+pub fn crc32c(data: &[u8]) -> u32 {
+    let t = crc_table();
     let mut c = 0xFFFF_FFFFu32;
     for b in data {
         c = t[((c ^ *b as u32) & 0xFF) as usize] ^ (c >> 8);
     }
     c ^ 0xFFFF_FFFF
+}
+
+/// Four bytes which, appended to `prefix`, make the CRC32C of the whole equal `target` (CRC forcing by walking the
+/// table backwards: the top byte of every table entry is unique)
+pub fn crc32c_forge_suffix(prefix: &[u8], target: u32) -> [u8; 4] {
+    let t = crc_table();
+    let mut reg = 0xFFFF_FFFFu32;
+    for b in prefix {
+        reg = t[((reg ^ *b as u32) & 0xFF) as usize] ^ (reg >> 8);
+    }
+    let want = target ^ 0xFFFF_FFFF;
+    let mut idx = [0usize; 4];
+    let mut r = want;
+    for i in (0..4).rev() {
+        let top = r >> 24;
+        let j = (0..256).find(|j| t[*j] >> 24 == top).expect("top bytes of the table are a permutation");
+        idx[i] = j;
+        r = (r ^ t[j]) << 8;
+    }
+    let mut out = [0u8; 4];
+    for i in 0..4 {
+        out[i] = ((reg ^ idx[i] as u32) & 0xFF) as u8;
+        reg = t[idx[i]] ^ (reg >> 8);
+    }
+    debug_assert_eq!(reg, want);
+    out
 }
 
 fn u64_at(b: &[u8], o: usize) -> u64 {
